@@ -8,10 +8,12 @@ package litefs
 //@ pred storeWF(s *Store) = s != nil && s.OS != nil && s.dbs != nil &&
 //@      (forall n string :: has(s.dbs, n) && s.dbs[n] != nil ==> dbWF(s.dbs[n]) && s.dbs[n].store == s)
 
+// (reading a nil map is legal in Go: only s != nil is needed for safety; the object invariant of the result is
+// available to callers that have the store invariant)
 //@ func (s *Store) DB [C06,C01]
-//@   requires  storeWF(s)
+//@   requires  s != nil
 //@   modifies
-//@   ensures   result != nil ==> dbWF(result) && result.store == s
+//@   ensures   old(storeWF(s)) && result != nil ==> dbWF(result) && result.store == s
 //@   nopanic
 
 // ===========================================================================
